@@ -6,18 +6,22 @@
           admissible: own label, or the label of an earlier entry of the same table the traffic conforms to as well).
    Signatures of the bundled file are named by their p0f.fp line (tcp_entry / http_entry).
    Known classes of TRAFFIC (excused only while IMPL = MODEL): C03's K1 (bytes after end-of-options), K4 (quirk order),
-   K5 (malformed options / NS), K7 (MTU divisor) and KV6 (df/id+/id-/0+ not ignored on IPv6, flow not ignored on IPv4).
-   Status of the 199 + 99 bundled signatures, recomputed from Gen/Bundled.v by every build:
-     TCP : 61 live (proved), 114 dead (12 DeadBadTtl + 80 DeadValueWindow + 22 DeadEolPad; one checked witness each),
-           24 undecided (scale `0` written for a layout without `ws`: never at distance 0, in practice matched at
-           distance 1) — Spec/ReachLists.v;
-     HTTP: 47 live (proved by the finite abstraction of Spec/ReachHttpSpec.v), 42 dead (13 for exact-literal messages,
-           9 Expsw, 20 ValueEquality; one checked witness each), 10 undecided (9 abstraction walks above 3000 leaves, 1
-           failing the check without a concrete witness): the HTTP partition is PARTIAL. *)
+   K5 (malformed options; its NS-bit part was repaired by 9733023) and KV6 (df/id+/id-/0+ not ignored on IPv6, flow not
+   ignored on IPv4).  K7 is kept in `known_c03` for the shape of C03's lemmas but is false on every decoded segment
+   since 44d12e9 (window field above 65535).
+   Status of the 199 + 99 bundled signatures, recomputed from Gen/Bundled.v by every build (lists and sizes:
+   Spec/ReachLists.v, written by harness/c13/tools/mk_lists.py; at /repo fdb1660):
+     TCP : 67 live at distance 0 (6 of the 12 `NN-` signatures among them since fdb1660) + 24 live at distance 1 (scale `0`
+           written for a layout without `ws`; certificate Spec/ReachMinSpec.v), 107 dead (85 DeadValueWindow + 22
+           DeadEolPad; one checked witness each), 1 undecided (line 313: MSS `0` written for a layout without `mss`,
+           charged 2 — no distance-2 certificate is built);
+     HTTP: 54 live (finite abstraction, Spec/ReachHttpSpec.v, evaluated in 12 shards), 45 dead (13 for exact-literal
+           messages, 9 Expsw, 23 ValueEquality; one checked witness each), 0 undecided. *)
 From Coq Require Import List NArith Bool.
 From HN Require Import Base.Bytes Model.SigAst Model.Match Model.TcpExtract Model.Reach
   Spec.ScanSpec Spec.P0fTcp Spec.DbLoadSpec Spec.BundledSpec Spec.ConformSpec Spec.ReachSpec Spec.ReachLists Spec.ReachWitness
-  Spec.ReachHttpSpec Proofs.ReachObs Proofs.ReachTcp Proofs.ReachBundled Proofs.ReachHttp Proofs.ReachHttpBundled.
+  Spec.ReachHttpSpec Spec.ReachMinSpec Proofs.ReachObs Proofs.ReachTcp Proofs.ReachBundled Proofs.ReachMin Proofs.ReachMinBundled
+  Proofs.ReachHttp Proofs.ReachHttpLines Proofs.ReachHttpBundled.
 Import ListNotations.
 Open Scope N_scope.
 
@@ -123,6 +127,82 @@ Check C13_bundled_tcp :
               /\ admissible (tcp_table bundled_db k) (fun t => conforms_tcp_b k t x) li si f.
 Print Assumptions C13_bundled_tcp.
 
+(* ---- signatures reachable at distance 1 (scale `0` written for a layout without `ws`) ---- *)
+(* zero_wins generalised (every database, every distance function): the own entry is at distance d, entries in front are
+   farther than d or harmless, no entry is nearer than d unless harmless => the reported entry is the own one or harmless *)
+Theorem C13_min_wins :
+  forall (L S O : Type) (distance : S -> O -> option N) (score : N -> N) (db : list (L * list S)) (o : O)
+         (stop ok : N * N * S -> bool) (x0 : N * N * S) (d : N),
+    find stop (positions db) = Some x0 -> distance (snd x0) o = Some d ->
+    (forall p e, In p (prefix_before stop (positions db)) -> distance (snd p) o = Some e -> d < e \/ ok p = true) ->
+    (forall p e, In p (positions db) -> distance (snd p) o = Some e -> d <= e \/ ok p = true) ->
+    exists y e, In y (positions db) /\ distance (snd y) o = Some e
+                /\ scan distance score db o = FSome (fst (fst y)) (snd (fst y)) e (score e)
+                /\ (y = x0 \/ ok y = true).
+Proof. intros L S O. exact (@scan_min_wins L S O). Qed.
+Check C13_min_wins :
+  forall (L S O : Type) (distance : S -> O -> option N) (score : N -> N) (db : list (L * list S)) (o : O)
+         (stop ok : N * N * S -> bool) (x0 : N * N * S) (d : N),
+    find stop (positions db) = Some x0 -> distance (snd x0) o = Some d ->
+    (forall p e, In p (prefix_before stop (positions db)) -> distance (snd p) o = Some e -> d < e \/ ok p = true) ->
+    (forall p e, In p (positions db) -> distance (snd p) o = Some e -> d <= e \/ ok p = true) ->
+    exists y e, In y (positions db) /\ distance (snd y) o = Some e
+                /\ scan distance score db o = FSome (fst (fst y)) (snd (fst y)) e (score e)
+                /\ (y = x0 \/ ok y = true).
+Print Assumptions C13_min_wins.
+
+(* the certificate is sound: own distance exactly 1; entries in front never at distance exactly 1; entries behind never at 0 *)
+Theorem C13_live1_own_distance :
+  forall (k : tkind) (s : tcp_sig) (g : segment),
+    seg_wf g -> live1_tcp_b s = true -> conforms_seg_b k s g = true -> kv6 s g = false -> K5 g = false ->
+    tcp_distance s (spec_sig g) = Some 1.
+Proof.
+  intros k s g WF LV C KV K5F. apply live1_one; [exact (obs_char k s g WF LV C KV K5F)|].
+  unfold live1_tcp_b in LV. repeat (apply andb_true_iff in LV; destruct LV as [LV ?]). assumption.
+Qed.
+Print Assumptions C13_live1_own_distance.
+Theorem C13_live1_separation :
+  forall (k : tkind) (s t : tcp_sig) (g : segment) (e : N),
+    seg_wf g -> live1_tcp_b s = true -> conforms_seg_b k s g = true -> kv6 s g = false -> K5 g = false ->
+    tcp_distance t (spec_sig g) = Some e ->
+    (sep_before s t = true -> e <> 1) /\ (sep_after s t = true -> e <> 0).
+Proof.
+  intros k s t g e WF LV C KV K5F D. pose proof (obs_char k s g WF LV C KV K5F) as OF.
+  split; intros S; [exact (sep_before_sound s t _ e OF S D) | exact (sep_after_sound s t _ e OF S D)].
+Qed.
+Print Assumptions C13_live1_separation.
+
+(* MAIN for distance 1 (every database) *)
+Theorem C13_tcp_distance1 :
+  forall (db : database) (k : tkind) (li si : N) (s : tcp_sig) (x : tcp_traffic),
+    entry_at (tcp_table db k) li si = Some (li, si, s) ->
+    live1_cert (tcp_table db k) li si s = true -> conforms_tcp k s x -> known_tcp_traffic db s x = false ->
+    exists f, reach_tcp db x = RMatch (tcp_table_id k) f
+              /\ admissible (tcp_table db k) (fun t => conforms_tcp_b k t x) li si f.
+Proof. exact reach_tcp_live1. Qed.
+Check C13_tcp_distance1 :
+  forall (db : database) (k : tkind) (li si : N) (s : tcp_sig) (x : tcp_traffic),
+    entry_at (tcp_table db k) li si = Some (li, si, s) ->
+    live1_cert (tcp_table db k) li si s = true -> conforms_tcp k s x -> known_tcp_traffic db s x = false ->
+    exists f, reach_tcp db x = RMatch (tcp_table_id k) f
+              /\ admissible (tcp_table db k) (fun t => conforms_tcp_b k t x) li si f.
+Print Assumptions C13_tcp_distance1.
+
+Theorem C13_bundled_tcp_distance1 :
+  forall (k : tkind) (line li si : N) (s : tcp_sig) (x : tcp_traffic),
+    In line live1_tcp_lines -> tcp_entry k line = Some (li, si, s) ->
+    conforms_tcp k s x -> known_tcp_traffic bundled_db s x = false ->
+    exists f, reach_tcp bundled_db x = RMatch (tcp_table_id k) f
+              /\ admissible (tcp_table bundled_db k) (fun t => conforms_tcp_b k t x) li si f.
+Proof. exact bundled_tcp_live1. Qed.
+Check C13_bundled_tcp_distance1 :
+  forall (k : tkind) (line li si : N) (s : tcp_sig) (x : tcp_traffic),
+    In line live1_tcp_lines -> tcp_entry k line = Some (li, si, s) ->
+    conforms_tcp k s x -> known_tcp_traffic bundled_db s x = false ->
+    exists f, reach_tcp bundled_db x = RMatch (tcp_table_id k) f
+              /\ admissible (tcp_table bundled_db k) (fun t => conforms_tcp_b k t x) li si f.
+Print Assumptions C13_bundled_tcp_distance1.
+
 (* the hypotheses are satisfiable on a non-trivial input: a conforming IPv4 SYN for the Linux 3.11 signature of line 96 *)
 Example C13_bundled_tcp_hypotheses :
   forallb (fun w => match parse_tcp_case (snd w) with
@@ -137,7 +217,7 @@ Proof. vm_compute. split; reflexivity. Qed.
 (* every TCP signature line of the file is in exactly one of live / dead / undecided, the lists are the ones the
    deciders compute on the file, and their sizes are 61 / 12 + 80 + 22 / 24 of 199 *)
 Theorem C13_bundled_tcp_partition :
-  list_N_eqb (sort_N (live_tcp_lines ++ dead_tcp_lines ++ undecided_tcp_lines))
+  list_N_eqb (sort_N (live_tcp_lines ++ live1_tcp_lines ++ dead_tcp_lines ++ undecided_tcp_lines))
              (sort_N (sig_lines SecTQ ++ sig_lines SecTS)) = true
   /\ length (sig_lines SecTQ ++ sig_lines SecTS) = 199%nat
   /\ list_N_eqb (class_lines CLive) live_tcp_lines = true
@@ -145,9 +225,9 @@ Theorem C13_bundled_tcp_partition :
   /\ list_N_eqb (sort_N (class_lines CEolPad ++ class_lines COddTtl)) dead_eol_pad_lines = true
   /\ subset_N (class_lines CValueWindow) dead_value_window_lines = true
   /\ subset_N dead_value_window_lines (class_lines CValueWindow ++ class_lines COptZero) = true
-  /\ subset_N undecided_tcp_lines (class_lines COptZero) = true
-  /\ (length live_tcp_lines, length dead_bad_ttl_lines, length dead_value_window_lines, length dead_eol_pad_lines,
-      length undecided_tcp_lines) = (61, 12, 80, 22, 24)%nat.
+  /\ subset_N (live1_tcp_lines ++ undecided_tcp_lines) (class_lines COptZero) = true
+  /\ (length live_tcp_lines, length live1_tcp_lines, length dead_bad_ttl_lines, length dead_value_window_lines,
+      length dead_eol_pad_lines, length undecided_tcp_lines) = tcp_partition_sizes.
 Proof. exact bundled_tcp_partition. Qed.
 Print Assumptions C13_bundled_tcp_partition.
 
@@ -235,8 +315,7 @@ Example C13_bundled_http_hypotheses :
                     | None => false end) wit_ex_http = true /\ length wit_ex_http = 1%nat.
 Proof. vm_compute. split; reflexivity. Qed.
 
-(* refutations; the partition is PARTIAL for HTTP: 10 signatures are undecided (9 whose walk exceeds 3000 leaves, 1 that
-   fails the check without a concrete witness) *)
+(* refutations and the partition (the theorem keeps its name; no line is undecided any more) *)
 (* http_refuted line := exists k li si s m body, http_entry k line = Some (li, si, s) /\ conforms_http k s m
      /\ Http1Grammar.known m = false
      /\ ~ (exists f, reach_http bundled_db k (render m ++ body) = RMatch (http_table_id k) f /\ admissible .. li si f) *)
@@ -253,6 +332,6 @@ Theorem C13_bundled_http_partition_partial :
   list_N_eqb (sort_N (live_http_lines ++ dead_http_lines ++ undecided_http_lines)) (sort_N (sig_lines SecHQ ++ sig_lines SecHS)) = true
   /\ length (sig_lines SecHQ ++ sig_lines SecHS) = 99%nat
   /\ (length live_http_lines, length dead_http_exact_lines, length dead_http_expsw_lines, length dead_http_value_lines,
-      length undecided_http_lines) = (47, 13, 9, 20, 10)%nat.
+      length undecided_http_lines) = http_partition_sizes.
 Proof. exact bundled_http_partition. Qed.
 Print Assumptions C13_bundled_http_partition_partial.
